@@ -202,6 +202,31 @@ def run(ctx) -> None:
 
     RMAP = ctx.rule("C19/watch-maps-hold-the-path-as-given", "the wd->path and path->wd entries an add-watch files hold the path argument itself, by assignment (instances shared with C07): native paths are look-ups in that map, a stale or re-spelled entry names an entry that does not exist", floor=2)
     ctx.borrow("c07", "C07/root-spelling-preserved", RMAP, only=lambda i_: "_add_watch" in i_.construct)
+    # ... and the recursive installation walks the path as given: the sub-directories it files are join(<that path>, names)
+    from ..pse import Enumerator as _En2
+    from ..reader import ReaderCfg as _RC, find_loops as _fl
+
+    adw = P.find_method("Inotify", "_add_dir_watch")
+    if adw is None:
+        raise AnalysisError("anchor vanished: Inotify._add_dir_watch")
+    pth = [a.arg for a in adw.node.args.args][1] if len(adw.node.args.args) > 1 else "path"
+    wl = _fl(_En2(_RC(P, fault=True)).run(adw, selfcls="Inotify"), lambda e: e.text.startswith("os.walk("))
+    for L in wl:
+        try:
+            a0 = ast.parse(L.text, mode="eval").body.args[0]
+        except (SyntaxError, AttributeError, IndexError):
+            continue
+        calls = [(dotted(c.func) or "") for c in ast.walk(a0) if isinstance(c, ast.Call)]
+        resp = [c for c in calls if c.split(".")[-1] in ("normpath", "abspath", "realpath", "normcase", "expanduser", "expandvars", "relpath", "lower", "casefold")]
+        ctx.check(
+            not resp,
+            RMAP,
+            f"_add_dir_watch walks `{ast.unparse(a0)[:50]}`",
+            f"the recursive installation walks `{ast.unparse(a0)[:70]}` instead of `{pth}` as given: the sub-directories are filed in the wd->path map under the re-spelled root (absolute for a relative watch path), so events below them carry paths that are not the watched path joined with the entry's relative name, unlike the events of the root itself and of the polling observer",
+            f"{adw.module.relpath}:{L.line}",
+        )
+    if not wl:
+        ctx.unresolved.append("_add_dir_watch: no os.walk loop found (spelling of the installed sub-directories not decided)")
     generators(ctx, RSY, RSY, P)
 
     # ---- native paths name the real entry: they are wd->path look-ups, so the table must be current when a record is resolved
@@ -217,8 +242,48 @@ def run(ctx) -> None:
     _sink = ctx.rule("C19/_shared-not-owned", "(rows of the shared bookkeeping contract that C19 does not own)", floor=0)
     n0 = len(ctx.instances)
     check_rows(ctx, _sink, RNB, _sink, RNB, _sink, _sink)
+    from .c02 import record_path_from_live_map
+
+    record_path_from_live_map(ctx, RNB)
     ctx.instances[n0:] = [i for i in ctx.instances[n0:] if i.rule != _sink]
     del ctx.rules[_sink], ctx.floors[_sink]
+
+    # ---- ... and that path is spelled by joining, nothing else: the watch's own path when the record has no name
+    RSP_ = ctx.rule(
+        "C19/record-path-is-the-watch-path-joined-with-the-name",
+        "the path of the event built for a native record is `join(<wd's path>, name)` when the record carries a name and the wd's path itself when it does not: not passed through a function that re-spells paths (normpath / abspath / realpath / normcase ...: `./a/x` would become `a/x`, a relative root absolute), and not joined with an empty name (trailing separator)",
+        floor=2,
+    )
+    from ..reader import flag_kind, record_paths
+    from .c02 import record_path_term
+
+    RESPELL = ("normpath", "abspath", "realpath", "normcase", "expanduser", "expandvars", "relpath", "lower", "upper", "casefold", "strip", "rstrip", "lstrip")
+    bp_, _L, rfi_, _all = record_paths(P, fault=False)
+    per: dict[tuple, list] = {}
+    for p in bp_:
+        t_ = record_path_term(p)
+        if t_ is None:
+            continue
+        nm = p.conds().get("name")
+        per.setdefault((flag_kind(p), nm), []).append((t_, p))
+    if not per:
+        raise AnalysisError("read_events: no record path found (the 5th constructor argument of the record's event)")
+    for (kind, nm), lst in sorted(per.items(), key=str):
+        bad = ""
+        for t_, p in lst:
+            try:
+                tt = ast.parse(t_, mode="eval").body
+            except SyntaxError:
+                continue
+            calls = [(dotted(c.func) or (c.func.attr if isinstance(c.func, ast.Attribute) else "")) for c in ast.walk(tt) if isinstance(c, ast.Call)]
+            resp = [c for c in calls if c.split(".")[-1] in RESPELL]
+            if resp:
+                bad = f"the record's path is `{t_[:90]}`: passed through {resp[0]}(), which re-spells it (a watch on `./a` reports `a/x`; `..` components and doubled separators are rewritten), so the event path is no longer the watched path as given joined with the entry's name"
+            elif nm is False and isinstance(tt, ast.Call) and (dotted(tt.func) or "").endswith("path.join") and any(isinstance(a, ast.Name) and a.id == "name" for a in tt.args):
+                bad = f"a record without a name (an event about the watched directory itself) gets the path `{t_[:90]}`: joined with the empty name it ends in a separator and no longer equals the watched path"
+            if bad:
+                break
+        ctx.check(not bad, RSP_, f"read_events kind={kind} name={'given' if nm else 'empty' if nm is False else 'either'}: record path spelled by joining only ({len(lst)} path(s))", bad, rfi_.loc)
 
     # ---- raw codecs
     from ..fixtures import FX_CODEC, must_fire, raw_codec_calls
